@@ -205,7 +205,9 @@ type Config struct {
 	// the audience section (so it precedes the others in the audience order)
 	// although its auditing clauses come later.
 	EarlyMention string
-	VarTypes     map[string]Typ
+	// CloseErr: see Gen.ClosingError; the bound is Members[0].CondK, the actor Actors[0]
+	CloseErr bool
+	VarTypes map[string]Typ
 	VarOrder     []string
 }
 
@@ -234,6 +236,15 @@ type Gen struct {
 	// a plain `expects` predicate may go through a variable that the member
 	// itself computes as the signal (ExpKind "comp")
 	ExpectViaComputed bool
+	// now and then: three members, the second one computes a variable as a
+	// signal, the first and the third audit under the SAME condition text over
+	// that variable (visited before and after it is recomputed in a round)
+	SharedConds bool
+	// now and then: the first member audits while a signal is above a bound and
+	// has a clause that fails to evaluate exactly in the rounds whose sample
+	// closes the period (the event signal it needs is only sampled together
+	// with a low value)
+	ClosingError bool
 }
 
 func (g *Gen) pick(xs []string) string { return xs[g.R.Intn(len(xs))] }
@@ -346,10 +357,25 @@ func (g *Gen) Config() *Config {
 		early = 1 + g.R.Intn(nm-1)
 		c.EarlyMention = names[early]
 	}
+	forceShared := g.SharedConds && g.R.Intn(12) == 0
+	if forceShared {
+		nm, early = 3, 1
+		c.EarlyMention = names[early]
+	}
+	c.CloseErr = g.ClosingError && !forceShared && g.R.Intn(12) == 0
 	for i := 0; i < nm; i++ {
 		m := &Member{Name: names[i]}
 		// activation condition
 		kind := g.R.Intn(8)
+		if c.CloseErr && i == 0 {
+			kind = 300
+		}
+		if forceShared && i == 1 {
+			kind = 6
+		}
+		if forceShared && i == 2 {
+			kind = 200
+		}
 		if g.VerdictBias && g.R.Intn(4) == 0 {
 			kind = 100 // a mood that never occurs: the member never audits
 		}
@@ -357,6 +383,15 @@ func (g *Gen) Config() *Config {
 			kind = 6 // prefer a condition over a variable computed by a member that comes later in the audience order
 		}
 		switch kind {
+		case 300:
+			m.CondKind = "sig"
+			m.CondVar = [2]string{c.Actors[0], "s"}
+			m.CondK = int64(1 + g.R.Intn(4))
+			m.Cond = Bin(">", V(c.Actors[0], "s"), Num(m.CondK))
+		case 200:
+			// the same condition text as the member mentioned first
+			prev := c.Members[1]
+			m.CondKind, m.Cond, m.CondK = prev.CondKind, prev.Cond, prev.CondK
 		case 100:
 			m.CondKind = "other"
 			m.Cond = Bin("==", V("", "mood"), Str("green"))
@@ -443,6 +478,30 @@ func (g *Gen) Config() *Config {
 			m.Assigns = append(m.Assigns, as)
 			c.VarTypes[tgt] = as.Typ
 			c.VarOrder = append(c.VarOrder, tgt)
+		}
+		if c.CloseErr && i == 0 {
+			nvar++
+			tgt := fmt.Sprintf("y%d", nvar)
+			as := Assign{Target: tgt, Mode: "single", E: Bin("*", V(c.Actors[0], "e"), Num(2)), Typ: TNum}
+			m.ClauseOrdr = append(m.ClauseOrdr, fmt.Sprintf("%s computes %s as %s", m.Name, tgt, as.E.Src()))
+			m.Assigns = append(m.Assigns, as)
+			c.VarTypes[tgt] = as.Typ
+			c.VarOrder = append(c.VarOrder, tgt)
+		}
+		if forceShared && i == 0 {
+			hasNum := false
+			for _, as := range m.Assigns {
+				hasNum = hasNum || (as.Typ == TNum && as.Mode == "single")
+			}
+			if !hasNum {
+				nvar++
+				tgt := fmt.Sprintf("v%d", nvar)
+				as := Assign{Target: tgt, Mode: "single", E: V(c.Actors[g.R.Intn(len(c.Actors))], "s"), Typ: TNum}
+				m.ClauseOrdr = append(m.ClauseOrdr, fmt.Sprintf("%s computes %s as %s", m.Name, tgt, as.E.Src()))
+				m.Assigns = append(m.Assigns, as)
+				c.VarTypes[tgt] = as.Typ
+				c.VarOrder = append(c.VarOrder, tgt)
+			}
 		}
 		// expects
 		if len(m.Assigns) == 0 || g.R.Intn(4) != 0 {
@@ -764,7 +823,8 @@ func (g *Gen) History(c *Config, maxLen int) []Event {
 				ev.TsHalf = 0
 			}
 		}
-		for _, a := range c.Actors {
+		for ai, a := range c.Actors {
+			low := false
 			if g.R.Intn(3) != 0 {
 				k := a + " s"
 				v := int64(g.R.Intn(7))
@@ -773,6 +833,13 @@ func (g *Gen) History(c *Config, maxLen int) []Event {
 				}
 				last[k] = v
 				ev.Samples = append(ev.Samples, Sample{Actor: a, Sig: "s", IsNum: true, Num: v})
+				low = len(c.Members) > 0 && v <= c.Members[0].CondK
+			}
+			if c.CloseErr && ai == 0 {
+				if low && g.R.Intn(2) == 0 {
+					ev.Samples = append(ev.Samples, Sample{Actor: a, Sig: "e", Str: g.pick(evVals)})
+				}
+				continue
 			}
 			if g.R.Intn(4) == 0 {
 				ev.Samples = append(ev.Samples, Sample{Actor: a, Sig: "e", Str: g.pick(evVals)})
